@@ -6,3 +6,11 @@ claim("C02", "exploration",
 claim("C12", "exploration",
       "Differential run of gocql.Marshal against the independent reference serializer byte for byte (order-insensitive only for Go-map sourced sets/maps, plus canonical re-encoding), and of gocql.Unmarshal on the reference's bytes; same generator as C02.",
       VALNOTE, "runtime oracle: byte-exact differential testing against a reference codec written from the spec", "4/C12")
+claim("C09", "exploration",
+      "Runs the driver's three partitioners (both block readers: unsafe and appengine builds, and once under checkptr) on keys of every length 0..96 x byte patterns plus random keys, and token-string ordering, against an independent implementation of Cassandra's token functions.",
+      "Trusted base: cqlref.Murmur3Token / RandomToken (self-tested on the published DataStax/Cassandra vectors covering every tail length and the signed-byte case). The Long.MIN_VALUE normalisation needs a hash pre-image and is out of reach.",
+      "runtime oracle: differential testing of token functions against an independent Cassandra-compatible implementation", "4/C09")
+claim("C10", "exploration",
+      "Runs the driver's replica-map computation and token-aware lookup on generated rings (vnodes, uneven racks, unknown DCs, rf 0..6, three partitioners, several policy initialisation orders) and compares with an independent implementation of Cassandra's SimpleStrategy/NetworkTopologyStrategy; a small parameter box (<=4 nodes x <=2 tokens x <=2 DCs x <=2 racks x rf<=3, all DC/rack assignments) is enumerated completely.",
+      "Trusted base: cqlref placement (2.x and 3.x NTS formulations cross-checked on every case; a disagreement is reported as inconclusive). NTS is compared as a set plus first replica, SimpleStrategy as an exact sequence.",
+      "runtime oracle: differential testing of placement against a reference model, exhaustive over a small box", "4/C10")
